@@ -289,7 +289,7 @@ func TestVerifC19FieldTypeRace(t *testing.T) {
 // acknowledged point.
 func TestVerifC19SnapshotVsDelete(t *testing.T) {
 	stats := verifkit.For("C19", "TestVerifC19SnapshotVsDelete",
-		"one real shard (inmem; tsi1 is excluded here because of the known delete-vs-tsi-compaction-deadlock): a writer appends to a kept series and to a victim measurement, a second goroutine takes cache snapshots, a third deletes victim series with and without time bounds, for a drawn number of rounds; oracle: no race-detector report, no error, no panic, and the kept series returns every acknowledged point afterwards. non-trivial = at least 20 rounds; distinct = (rounds, batch size)")
+		"one real shard (inmem; tsi1 is excluded here because of the known delete-vs-tsi-compaction-deadlock): a writer appends to a kept series and to a victim measurement (in one case out of three also a wide batch of 200..1500 series x 3 fields per write call), a second goroutine takes cache snapshots, a third deletes victim series with and without time bounds, for a drawn number of rounds; oracle: no race-detector report, no error, no panic, and the kept series - and every value of the wide batches - is readable afterwards. non-trivial = at least 20 rounds; distinct = (rounds, batch size)")
 	defer stats.Flush()
 	rapid.Check(t, func(rt *rapid.T) {
 		root, err := os.MkdirTemp("", "c19s")
